@@ -164,18 +164,13 @@ pub fn gen_case(rng: &mut Rng, idx: u64) -> Case {
         11 => mk("regex", GCase::regex("deep_rx", &nest("(", ")", "a", depth)), "deep_regex_group"),
         12 => mk("regex", GCase::regex("deep_rx_rep", &format!("a{}", "{2}".repeat(depth.min(2000)))), "nested_repeat"),
         13 => {
-            let mut v = json!({"type": "integer"});
-            for _ in 0..depth.min(20000) {
-                v = json!({"allOf": [v]});
-            }
-            mk("json", GCase::json("deep_allof", &v.to_string()), "deep_allOf")
+            // built textually: dropping a 20000-deep serde Value would itself overflow the stack
+            let d = depth.min(20000);
+            mk("json", GCase::json("deep_allof", &nest("{\"allOf\":[", "]}", "{\"type\":\"integer\"}", d)), "deep_allOf")
         }
         14 => {
-            let mut v = json!({"type": "integer"});
-            for _ in 0..depth.min(20000) {
-                v = json!({"type": "array", "items": v});
-            }
-            mk("json", GCase::json("deep_items", &v.to_string()), "deep_items")
+            let d = depth.min(20000);
+            mk("json", GCase::json("deep_items", &nest("{\"type\":\"array\",\"items\":", "}", "{\"type\":\"integer\"}", d)), "deep_items")
         }
         15 => {
             let k = *rng.pick(&["maxItems", "minItems", "maxLength", "minLength", "maxProperties", "minProperties"]);
@@ -495,7 +490,7 @@ pub fn run(ctx: &mut Ctx) {
         let mut rng = ctx.case_rng(idx);
         let case = gen_case(&mut rng, idx);
         if let Some(j) = journal.as_mut() {
-            let head: String = case.g.as_ref().map(|g| g.text.chars().take(200).collect::<String>().replace('\n', "\\n")).unwrap_or_default();
+            let head: String = case.g.as_ref().map(|g| crate::report::bytes_dbg(&g.text.as_bytes()[..g.text.len().min(200)])).unwrap_or_default();
             let _ = writeln!(j, "B {idx} {} | {}", case.class, head);
             let _ = j.flush();
         }
@@ -515,6 +510,11 @@ pub fn run(ctx: &mut Ctx) {
         LAST_PANIC.lock().unwrap().clear();
         let h = std::thread::Builder::new().stack_size(2 << 20).spawn(move || run_one(&c2, seed)).unwrap();
         let res = h.join();
+        // lift the per-case CPU limit again: harness work between cases must not be charged to it
+        unsafe {
+            let lim = libc::rlimit { rlim_cur: libc::RLIM_INFINITY, rlim_max: libc::RLIM_INFINITY };
+            libc::setrlimit(libc::RLIMIT_CPU, &lim);
+        }
         let ms = t0.elapsed().as_millis() as u64;
         ctx.rep.inc("cases");
         ctx.rep.inc(&format!("class.{}", case.class));
